@@ -560,6 +560,19 @@ func c08Run(t *testing.T, st *vstat.Stats, p c08Plan) (v *viol) {
 			return
 		}
 		w.Tick()
+		// one poll has read the whole log minus the ignored entries: the saved position is the one after the last entry
+		// that was not ignored (positions are positions in the log, whatever was skipped on the way)
+		wantOff := 0
+		for i := len(log) - 1; i >= 0; i-- {
+			if !ign[log[i].ID] {
+				wantOff = i + 1
+				break
+			}
+		}
+		if lo, _ := live.Svc.GetStateOffset(); int(lo) != wantOff {
+			v = violf("offset-after-reset", "node %d after resetState ignoring %d message(s) (log positions %v) and one poll over the %d-entry log: saved offset %d, expected %d", p.NodeA, len(ignoreIDs), p.Ignore, len(log), lo, wantOff)
+			return
+		}
 		w.Tick()
 		rk, err := newReplayer(w, p.NodeA, kept, root, "kept")
 		if err != nil {
